@@ -551,17 +551,37 @@ class CcnFamily(ClimateFamily):
         g = _grid().grid()
         g1 = GeoGrid(np.arange(10.0), g["lat"][:3], g["lon"][:3], silence_level=3)
         g2 = GeoGrid(np.arange(10.0), g["lat"][3:], g["lon"][3:], silence_level=3)
-        return CoupledClimateNetwork(g1, g2, SIM.copy(), non_local=bool(a["NL"]), silence_level=3,
-                                     **{a["MODE"]: CLIM_PARAM[a["MODE"]][a["P"]]})
+        net = CoupledClimateNetwork(g1, g2, SIM.copy(), non_local=bool(a["NL"]), silence_level=3,
+                                    **{a["MODE"]: CLIM_PARAM[a["MODE"]][a["P"]]})
+        if a.get("LA"):
+            net.set_link_attribute("w", link_attr(a["LA"]))
+        return net
+
+    def mutate(self, obj, m, v):
+        if m == "set_link_attribute":
+            obj.set_link_attribute("w", link_attr(v))
+        elif m == "del_link_attribute":
+            if "w" in obj.graph.es.attributes():
+                obj.del_link_attribute("w")
+        else:
+            ClimateFamily.mutate(self, obj, m, v)
 
     def names(self, obj):
         return [n for n in ClimateFamily.names(self, obj) if "eigenvector" not in n]
+
+    LA_WRAPPERS = ("path_lengths_1", "path_lengths_2", "cross_path_lengths", "cross_average_path_length",
+                   "internal_average_path_length", "cross_closeness", "internal_closeness", "path_lengths",
+                   "average_path_length", "closeness", "global_efficiency", "degree")
 
     def calls(self, obj, a):
         c = ClimateFamily.calls(self, obj, a)
         for nm in self.WRAPPERS:
             if hasattr(obj, nm):
                 c.append((nm, getattr(obj, nm)))
+        if a.get("LA"):
+            for nm in self.LA_WRAPPERS:
+                if hasattr(obj, nm):
+                    c.append((nm + "(w)", lambda nm=nm: getattr(obj, nm)("w")))
         return c
 
 
@@ -725,8 +745,12 @@ def apply_abs(a, m, v):
         a["MODE"], a["P"] = m[len("set_"):].replace("fixed_", ""), v
     elif m in ("set_threshold", "set_link_density"):
         a["MODE"], a["P"] = m[len("set_"):], v
+        if "LA" in a:
+            a["LA"] = 0           # the graph is rebuilt: link attributes do not survive
     elif m == "set_non_local":
         a["NL"] = v
+        if "LA" in a:
+            a["LA"] = 0
     elif m == "set_window":
         a["WIN"] = v
     elif m == "set_global_window":
@@ -755,7 +779,7 @@ INIT = {
     "havlin": {"MODE": "threshold", "P": 1, "NL": 0, "MD": 1},
     "ctsonis": {"MODE": "threshold", "P": 1, "NL": 0},
     "isrn": {"MODE": "threshold", "P": 1},
-    "ccn": {"MODE": "threshold", "P": 1, "NL": 0}, "escn": {"MODE": "threshold", "P": 1, "NL": 0},
+    "ccn": {"MODE": "threshold", "P": 1, "NL": 0, "LA": 0}, "escn": {"MODE": "threshold", "P": 1, "NL": 0},
     "network": {"A": 1, "W": 0, "LA": 0}, "dirnetwork": {"A": 1, "W": 0, "LA": 0},
     "interacting": {"A": 1, "W": 0, "LA": 0}, "visibility": {"A": 1, "W": 0, "LA": 0},
     "geonetwork": {"A": 1, "W": 0, "LA": 0, "NWT": 1}, "resnetwork": {"R": 1},
